@@ -62,6 +62,7 @@ def explore(
     rng: np.random.Generator | None = None,
     pre_run: dict | None = None,
     second_crash: int = 0,
+    resume_scn: dict | None = None,
 ) -> dict:
     out = {
         "violations": [],
@@ -309,7 +310,7 @@ def explore(
                 continue
             if st["file"] is not None:
                 shutil.copy(st["file"], run_file)
-            r = run_process(scn, workdir, resume=(route, st["live"] if route == "dict_live" else st["payload"]), proc_no=1 + si)
+            r = run_process(resume_scn or scn, workdir, resume=(route, st["live"] if route == "dict_live" else st["payload"]), proc_no=1 + si)
             out["evaluations"] += 1
             out["resumes"] += 1
             out["events"] += len(r.trace.events)
@@ -360,17 +361,37 @@ def explore(
     if second_crash and file_mode and "c12" in want:
         for si, st in enumerate(st_list):
             for route in ("resume_from_file", "path"):
+                # the continuation may ask for another cadence (resume_kwargs / a new auto_checkpoint context do that)
+                scn2 = scn
+                it0 = pickle.loads(st["payload"]).get("iteration") or 0
+                if rng is not None and rng.integers(2) == 0:
+                    import copy as _copy
+
+                    scn2 = _copy.deepcopy(scn)
+                    scn2["checkpoint"]["every"] = int(rng.integers(1, 5))
+                every2 = scn2["checkpoint"]["every"]
                 shutil.copy(st["file"], run_file)
-                rr = run_process(scn, workdir, resume=(route, st["payload"]), proc_no=60, initial_file_payload=st["payload"])
+                rr = run_process(scn2, workdir, resume=(route, st["payload"]), proc_no=60, initial_file_payload=st["payload"])
                 out["evaluations"] += 1
-                if rr.status != "ok" or rr.model.n_like_calls == 0:
+                if rr.status != "ok":
                     continue
+                n_tot = len(rr.history.beta)
+                its2 = [it for it, _, _ in rr.payloads]
+                want2 = [i for i in range(it0 + 1, n_tot + 1) if i % every2 == 0] + [n_tot]
+                if its2 != want2 and n_tot >= it0:
+                    V.append(violation(
+                        "c12.cadence",
+                        f"a run resumed (via {route}) at iteration {it0} with cadence {every2} wrote checkpoints at iterations {its2}; the cadence dictates {want2}",
+                        {**where, "every": every2, "resumed": True}, got=its2, want=want2))
+                if rr.model.n_like_calls == 0:
+                    continue
+                scn_c = scn2
                 like_seq = [s_ for s_, k_, kw_ in rr.trace.events if k_ == "like"]
                 ck2 = [s_ for s_, k_, kw_ in rr.trace.events if k_ == "ckpt"]
                 n_calls = min(len(like_seq), second_crash)
                 for m in range(n_calls):
                     shutil.copy(st["file"], run_file)
-                    c2 = run_process(scn, workdir, resume=(route, st["payload"]), crash=("like", m, "interrupt" if m % 2 else "model_error"),
+                    c2 = run_process(scn_c, workdir, resume=(route, st["payload"]), crash=("like", m, "interrupt" if m % 2 else "model_error"),
                                      proc_no=60, initial_file_payload=st["payload"])
                     out["evaluations"] += 1
                     if c2.status != "crashed":
